@@ -375,12 +375,12 @@ func c15GenScript(t *rapid.T, n, nsrc int) []c15Event {
 		case e.kind == "retry" && len(faulted) > 0:
 			e.hi = faulted[len(faulted)-1-rapid.IntRange(0, min(2, len(faulted)-1)).Draw(t, "retryback")]
 		case e.kind == "replay":
-			e.hi = rapid.IntRange(0, max(0, cursor[e.src]-2)).Draw(t, "replay")
+			e.hi = rapid.IntRange(0, min(n-1, max(0, cursor[e.src]-2))).Draw(t, "replay")
 		case e.kind == "any":
 			e.hi = rapid.IntRange(0, n-1).Draw(t, "anyh")
 		default:
 			if e.kind == "gap" {
-				cursor[e.src] += rapid.IntRange(1, 2).Draw(t, "skip")
+				cursor[e.src] = min(n, cursor[e.src]+rapid.IntRange(1, 2).Draw(t, "skip"))
 			} else if e.kind != "next" {
 				e.kind = "next"
 			}
